@@ -4,7 +4,7 @@
 From Coq Require Import ZArith List String Ascii Bool Lia.
 From Model Require Import PyBase Mdl MdlMap Mrv Stereo.
 From Gen Require Import MdlTables MdlSource.
-From Proofs Require Import MdlProofs MdlV2000 MdlV3000 MdlTail MdlFraming MdlFramingExt MdlMeta MdlFile MdlFileMol MdlFileMol3 MdlRxn MdlFileRxn MdlFileRxn3 MdlSessions MdlEscape MdlSourceTie MdlMapProofs MrvProofs StereoProofs.
+From Proofs Require Import MdlProofs MdlV2000 MdlV3000 MdlTail MdlFraming MdlFramingExt MdlMeta MdlFile MdlFileMol MdlFileMol3 MdlRxn MdlFileRxn MdlFileRxn3 MdlSessions MdlEscape MdlSourceTie MdlMapProofs MdlSlices MrvProofs StereoProofs.
 Import ListNotations.
 Open Scope Z_scope.
 Local Notation length := List.length.
@@ -507,6 +507,32 @@ Theorem C11_mrv_example :
   mrv_write_read true exm_mol exm_hs = Ok exm_parsed.
 Proof. exact (conj exm_hypotheses exm_roundtrip). Qed.
 Print Assumptions C11_mrv_example.
+
+(* ---- random access (MDLRead.__getitem__ with a step-1 slice, seek, the index SDFRead.reset_index builds): on an SD file whose record
+        lines do not contain "$$$$" the index addresses the records, and reader[i:j] returns what the records i..j-1 yield on their own
+        lines (ValueError skipped, IndexError NOT: it propagates); when every record parses or raises a ValueError this is the
+        sub-range of what sequential reading returns ---- *)
+Theorem C11_sdf_getslice_records : forall (A : Type) (build_mol : parsed3 -> pyres A) (buffer_size : nat) recs i j,
+  Forall (rec_ok buffer_size) recs ->
+  sdf_getslice A build_mol buffer_size i j (sdf_file recs []) =
+  slice_collect A (map (sdf_one A build_mol true) (map fst (firstn (Nat.min j (length recs) - Nat.min i (length recs)) (skipn (Nat.min i (length recs)) recs)))).
+Proof. exact sdf_getslice_records. Qed.
+Print Assumptions C11_sdf_getslice_records.
+Theorem C11_sdf_random_access_is_sequential : forall (A : Type) (build_mol : parsed3 -> pyres A) (buffer_size : nat) recs i j,
+  Forall (rec_ok buffer_size) recs ->
+  Forall (val_skippable A) (map (sdf_one A build_mol true) (map fst recs)) -> (i <= j <= length recs)%nat ->
+  sdf_getslice A build_mol buffer_size i j (sdf_file recs []) =
+    (successes A (map (sdf_one A build_mol true) (map fst (firstn (j - i) (skipn i recs)))), Exhausted) /\
+  sdf_read A build_mol buffer_size (sdf_file recs []) = (successes A (map (sdf_one A build_mol true) (map fst recs)), Exhausted).
+Proof. exact sdf_random_access_is_sequential. Qed.
+Print Assumptions C11_sdf_random_access_is_sequential.
+Theorem C11_sdf_slices_example :
+  Forall (rec_ok 100) ex_recs /\
+  sdf_getslice (option str) ex_build 100 0 3 (sdf_file ex_recs []) = ([(Some (L "a"), [(L "k", L "v")])], Exhausted) /\
+  sdf_getslice (option str) ex_build 100 4 9 (sdf_file ex_recs []) = ([(Some (L "c"), [(L "k", L "v")])], Exhausted) /\
+  snd (sdf_getslice (option str) ex_build 100 2 5 (sdf_file ex_recs [])) = Crashed (Py IndexError).
+Proof. exact sdf_slices_example. Qed.
+Print Assumptions C11_sdf_slices_example.
 
 (* ---- between the parsed dict and the container (model coq/model/MdlMap.v): postprocess_parsed_molecule decides the atom numbers,
         the graph part of create_molecule keys the atoms by them and re-addresses the bonds (no loops, known atoms, no double bond);
